@@ -245,6 +245,12 @@ def run(repo, rep, tier):
     for m in repo.modules.values():
         for n in ast.walk(m.tree):
             if isinstance(n, ast.Call) and unparse(n.func) == 'object.__setattr__' and n._func is not sa_:
+                # a copy-protocol hook that transfers the attributes of an existing (already validated) configuration attribute by attribute is not a bypass:
+                # the stored values come from iterating self.__dict__ (possibly through copy.deepcopy)
+                f0 = n._func
+                in_copy_hook = f0 is not None and f0.name in ('__deepcopy__', '__copy__', '__setstate__') and any(isinstance(x, ast.For) and '__dict__' in unparse(x.iter) for x in ast.walk(f0))
+                if in_copy_hook:
+                    continue
                 rep.check('port', 'no store bypasses the validating setter', False, n, 'object.__setattr__ used outside AuditConf.__setattr__')
             if isinstance(n, ast.Attribute) and n.attr == '__dict__' and n._cls is not None and n._cls.name == 'AuditConf' and not (n._func is not None and n._func.name in ('__deepcopy__', '__copy__', '__getstate__', '__setstate__', '__reduce__', '__reduce_ex__')):
                 rep.check('port', 'no store bypasses the validating setter', False, n, 'AuditConf.__dict__ manipulated directly')
